@@ -16,6 +16,11 @@ pub enum ErrKind {
     UnexpectedEof,
     Other,
     BrokenPipe,
+    /// kinds that read like "try again" but are final on a stream socket (ETIMEDOUT from a vanished
+    /// peer, EINTR / EAGAIN surfacing from a broken layer below)
+    TimedOut,
+    Interrupted,
+    WouldBlock,
 }
 
 impl ErrKind {
@@ -25,6 +30,9 @@ impl ErrKind {
             ErrKind::UnexpectedEof => io::Error::new(io::ErrorKind::UnexpectedEof, "unexpected end of file (injected)"),
             ErrKind::Other => io::Error::other("injected transport failure"),
             ErrKind::BrokenPipe => io::Error::new(io::ErrorKind::BrokenPipe, "broken pipe (injected)"),
+            ErrKind::TimedOut => io::Error::new(io::ErrorKind::TimedOut, "connection timed out (injected)"),
+            ErrKind::Interrupted => io::Error::new(io::ErrorKind::Interrupted, "interrupted (injected)"),
+            ErrKind::WouldBlock => io::Error::new(io::ErrorKind::WouldBlock, "would block (injected)"),
         }
     }
 }
@@ -108,6 +116,8 @@ struct State {
     stall_at: Option<(usize, u64)>,
     stall_until: Option<Instant>,
     shutdown_at: Option<Instant>,
+    /// the kind injected write / flush errors carry
+    write_err_kind: ErrKind,
 }
 
 #[derive(Clone)]
@@ -143,6 +153,7 @@ pub fn pipe(p: PipeParams) -> (PipeWriter, PipeReader, PipeHandle) {
         stall_at: None,
         stall_until: None,
         shutdown_at: None,
+        write_err_kind: ErrKind::BrokenPipe,
     };
     let h = PipeHandle(Arc::new(Mutex::new(st)));
     (PipeWriter(h.clone()), PipeReader { h: h.clone(), sleep: None }, h)
@@ -180,6 +191,10 @@ impl PipeHandle {
     /// nothing for `ms` milliseconds (the writer backs up against the capacity), then resume.
     pub fn stall_reader_at(&self, at: usize, ms: u64) {
         self.0.lock().unwrap().stall_at = Some((at, ms));
+    }
+    /// The error kind of injected write and flush failures (default: broken pipe).
+    pub fn set_write_err_kind(&self, kind: ErrKind) {
+        self.0.lock().unwrap().write_err_kind = kind;
     }
     pub fn freeze_reader(&self, frozen: bool) {
         let mut s = self.0.lock().unwrap();
@@ -246,13 +261,13 @@ impl AsyncWrite for PipeWriter {
             if let Fault::WriteErr { at } = f {
                 if s.accepted >= *at {
                     s.faults_hit += 1;
-                    return Poll::Ready(Err(ErrKind::BrokenPipe.to_io()));
+                    return Poll::Ready(Err(s.write_err_kind.to_io()));
                 }
                 limit = limit.min(*at - s.accepted);
             }
         }
         if s.reader_dropped {
-            return Poll::Ready(Err(ErrKind::BrokenPipe.to_io()));
+            return Poll::Ready(Err(s.write_err_kind.to_io()));
         }
         if buf.is_empty() {
             return Poll::Ready(Ok(0));
@@ -300,12 +315,12 @@ impl AsyncWrite for PipeWriter {
         s.log.push(Ev::Flush { t: Instant::now() });
         if s.faults.iter().any(|f| matches!(f, Fault::FlushErr { k: kk } if *kk == k)) {
             s.faults_hit += 1;
-            return Poll::Ready(Err(ErrKind::BrokenPipe.to_io()));
+            return Poll::Ready(Err(s.write_err_kind.to_io()));
         }
         let broken = s.faults.iter().any(|f| matches!(f, Fault::WriteErr { at } if s.accepted >= *at));
         if broken {
             s.faults_hit += 1;
-            return Poll::Ready(Err(ErrKind::BrokenPipe.to_io()));
+            return Poll::Ready(Err(s.write_err_kind.to_io()));
         }
         Poll::Ready(Ok(()))
     }
